@@ -5,6 +5,8 @@ CONSTANTS
   MaxIter = 12
   SeqMaxUnits = 10
   Record = TRUE
+  Lag = 1
+  Repair = FALSE
   Bug = "none"
 INVARIANT ExactAtFixpoint
 INVARIANT EmitJson
